@@ -141,11 +141,14 @@ def datetimes(ctx, kind, how, ylo, yhi, coarse=False):
         ctx.observe("e", fields(e))
 
 
-def different_zones(ctx, bkind, ylo, yhi, akind="fixed"):
+def different_zones(ctx, bkind, ylo, yhi, akind="fixed", coarse=False):
     """endpoints in differently named zones are decomposed as the same two instants expressed in UTC"""
     P = ctx.P
     a, tzA, TsA, offsA, ua, usa = valid_source(ctx, akind, ylo, yhi, p="a")
     b, tzB, TsB, offsB, ub, usb = valid_source(ctx, bkind, ylo, yhi, p="b", key="Verif/B")
+    if coarse:
+        # quick tier: wall times on whole minutes (the offsets stay arbitrary to the second, so the shifted values are not)
+        ctx.assume(AND(a.second == 0, a.microsecond == 0, b.second == 0, b.microsecond == 0))
     ctx.assume(ua * 1000000 + usa <= ub * 1000000 + usb)
     r = b - a
     c = _components(r)
@@ -185,6 +188,7 @@ def cases(tier):
                             bounds=f"every ordered pair of UTC DateTimes on whole hours in years {win[0]}..{win[1]}"))
     for ak, bk in ((("utc", "fixed"), ("fixed", "utc")) if tier == "quick" else
                    (("utc", "fixed"), ("fixed", "utc"), ("fixed", "fixed"), ("fixed", "zone"), ("utc", "zone"))):
-        out.append(dict(name=f"different zones {ak}/{bk}", fn=different_zones, params=dict(akind=ak, bkind=bk, ylo=2000, yhi=2000),
-                        bounds=f"every ordered pair ({ak} start, differently named {bk} end) in year 2000, any offsets"))
+        out.append(dict(name=f"different zones {ak}/{bk}", fn=different_zones, params=dict(akind=ak, bkind=bk, ylo=2000, yhi=2000, coarse=(tier == "quick")),
+                        bounds=f"every ordered pair ({ak} start, differently named {bk} end) in year 2000, any offsets"
+                               + (", wall times on whole minutes" if tier == "quick" else "")))
     return out
